@@ -19,7 +19,7 @@ import (
 
 func init() { Registry["C04"] = runC04 }
 
-const explanationC04 = "Decides structural necessary conditions of C04: (R04.1) in every expanded variant of the generated handler the endpoint call is reached only through decodeRequest followed by `if err != nil { encodeError…; return }`, and the runtime gRPC handlers have the same gate (shared with C10/R10.3); (R04.2) the generated request decoder returns the accumulated validation error before building the payload; (R04.3) keyword semantics — each of the six numeric/length keyword templates, expanded under the flags its execute site fixes, emits the comparison, bound and lower/upper flag that the keyword names (inclusive `<`/`>`, exclusive `<=`/`>=`, rune count for strings, len otherwise); (R04.4) at every template execute site of validationCode the flags the template branches on have one definite value on all paths (reaching-constants over the data map), and every key printed by the selected branches is definitely present; (R04.5) every ValidationExpr field is consumed by the validation generator, Dup, Merge and HasRequiredOnly; (R04.6) Merge treats lower-bound-like and upper-bound-like keywords consistently; (R04.7) recursion covers objects, arrays, maps and unions; (R04.8) the loops that merge required lists visit every element; keyword blocks are independent (not else-chained); (R04.9) the must-validate decisions of the HTTP data builder consult each collection they built and accumulate (never 'last element wins'); (R04.10) runtime validators (shared with C17); (R04.11) References are inherited and Bases merged by every implementation; (R04.12) alias flattening keeps and merges validations into the attribute; (R04.13) generated decoders never plainly assign the error accumulator after a merge; (R04.14) the required flag is propagated for every element of a Finalize loop; shared rules R17.1 (format vocabulary) and R18.1 (merged validation errors keep their class). NOT decided: that the emitted Validate functions accept exactly the valid values for every attribute shape (needs execution of generated code)."
+const explanationC04 = "Decides structural necessary conditions of C04: (R04.1) in every expanded variant of the generated handler the endpoint call is reached only through decodeRequest followed by `if err != nil { encodeError…; return }`, and the runtime gRPC handlers have the same gate (shared with C10/R10.3); (R04.2) the generated request decoder returns the accumulated validation error before building the payload; (R04.3) keyword semantics — each of the six numeric/length keyword templates, expanded under the flags its execute site fixes, emits the comparison, bound and lower/upper flag that the keyword names (inclusive `<`/`>`, exclusive `<=`/`>=`, rune count for strings, len otherwise); (R04.4) at every template execute site of validationCode the flags the template branches on have one definite value on all paths (reaching-constants over the data map), and every key printed by the selected branches is definitely present; (R04.5) every ValidationExpr field is consumed by the validation generator, Dup, Merge and HasRequiredOnly; (R04.6) Merge treats lower-bound-like and upper-bound-like keywords consistently; (R04.7) recursion covers objects, arrays, maps and unions; (R04.8) the loops that merge required lists visit every element; keyword blocks are independent (not else-chained); (R04.9) the must-validate decisions of the HTTP data builder consult each collection they built and accumulate (never 'last element wins'); (R04.10) runtime validators (shared with C17); (R04.11) References are inherited and Bases merged by every implementation; (R04.12) alias flattening keeps and merges validations into the attribute; (R04.13) generated decoders never plainly assign the error accumulator after a merge; (R04.14) the required flag is propagated for every element of a Finalize loop; shared rules R17.1 (format vocabulary) and R18.1 (merged validation errors keep their class). shared R13.6 (ValidationExpr.Dup carries each keyword to the like-named field). NOT decided: that the emitted Validate functions accept exactly the valid values for every attribute shape (needs execution of generated code)."
 
 func runC04(c *an.Ctx) string {
 	r04ValidationTemplates(c)
@@ -36,6 +36,7 @@ func runC04(c *an.Ctx) string {
 	errAccumulatorRule(c, "R04.13", "http/codegen/templates/partial/request_elements.go.tpl", "http/codegen/templates/request_decoder.go.tpl", "http/codegen/templates/response_decoder.go.tpl", "http/codegen/templates/partial/single_response.go.tpl")
 	r028RefsAndBases(c, "R04.11") // shared with C02/R02.8: a Reference must not drag the referenced type's validations in
 	r181MergeErrors(c)            // shared with C18 (rule id R18.1): merged validation errors stay 400-class (Fault only if both are)
+	r136Exhaustive(c)             // shared with C13 (rule id R13.6): the copy of a validation that the HTTP types are built from carries every keyword to the field of the same name
 	return explanationC04
 }
 
@@ -84,6 +85,37 @@ func templateVars(c *an.Ctx, dir string) map[types.Object]string {
 					if len(consts) == 1 {
 						out[lhs] = consts[0].Name()
 					}
+				}
+			}
+			return true
+		})
+		// table form: a row (composite literal) that holds the address of one template variable and one
+		// package-level string constant, filled by a loop `*row.dest = template.Must(…Parse(row.source))`
+		ast.Inspect(f.Decl.Body, func(n ast.Node) bool {
+			cl, ok := n.(*ast.CompositeLit)
+			if !ok {
+				return true
+			}
+			var vars, consts []types.Object
+			for _, el := range cl.Elts {
+				v := el
+				if kv, ok := el.(*ast.KeyValueExpr); ok {
+					v = kv.Value
+				}
+				if u, ok := an.Unparen(v).(*ast.UnaryExpr); ok && u.Op == token.AND {
+					if o := an.ObjOf(p.TypesInfo, u.X); o != nil && o.Parent() == p.Types.Scope() && strings.HasSuffix(o.Type().String(), "template.Template") {
+						vars = append(vars, o)
+					}
+				}
+				if o := an.ObjOf(p.TypesInfo, v); o != nil {
+					if k, isConst := o.(*types.Const); isConst && k.Parent() == p.Types.Scope() {
+						consts = append(consts, o)
+					}
+				}
+			}
+			if len(vars) == 1 && len(consts) == 1 {
+				if _, done := out[vars[0]]; !done {
+					out[vars[0]] = consts[0].Name()
 				}
 			}
 			return true
@@ -660,17 +692,22 @@ func r049MustValidate(c *an.Ctx) {
 			if !ok {
 				return true
 			}
-			for _, st := range rs.Body.List {
+			// every assignment of the flag inside the loop, at any depth (also in the init of an `if`)
+			ast.Inspect(rs.Body, func(st ast.Node) bool {
 				as, isAs := st.(*ast.AssignStmt)
 				if !isAs || len(as.Lhs) != 1 || len(as.Rhs) != 1 {
-					continue
+					return true
 				}
 				id, isId := as.Lhs[0].(*ast.Ident)
 				if !isId || !strings.Contains(strings.ToLower(id.Name), "mustvalidate") {
-					continue
+					return true
 				}
 				if _, isConst := an.ConstBool(info, as.Rhs[0]); isConst {
-					continue
+					return true
+				}
+				// a flag declared inside this loop's body belongs to one iteration: nothing accumulates across the loop
+				if o := an.ObjOf(info, id); o != nil && rs.Body.Pos() <= o.Pos() && o.Pos() < rs.Body.End() {
+					return true
 				}
 				mentionsSelf := false
 				ast.Inspect(as.Rhs[0], func(x ast.Node) bool {
@@ -679,10 +716,19 @@ func r049MustValidate(c *an.Ctx) {
 					}
 					return true
 				})
-				if !mentionsSelf {
+				// `if !mustValidate { mustValidate = f(x) }` keeps an earlier true as well
+				guardedBySelf := false
+				for _, fct := range factsOf(f, as) {
+					// the test must be made per element, i.e. inside this loop's body
+					if y, ok := an.Unparen(fct.Cond).(*ast.Ident); ok && an.ObjOf(info, y) == an.ObjOf(info, id) && !fct.Holds && rs.Body.Pos() <= y.Pos() && y.Pos() < rs.Body.End() {
+						guardedBySelf = true
+					}
+				}
+				if !mentionsSelf && !guardedBySelf {
 					c.Failf(rule, f.Name+"#"+id.Name, as.Pos(), "%s is overwritten for each element of %s: only the last element decides whether the decoder returns its validation error", id.Name, types.ExprString(rs.X))
 				}
-			}
+				return true
+			})
 			return true
 		})
 		// sibling collections: per function, the *Data slices ranged over in loops that set mustValidate
@@ -710,40 +756,57 @@ func r049MustValidate(c *an.Ctx) {
 			}
 			return true
 		})
-		// a collection handed to a helper that computes the flag from it: `mustValidate = helper(headers, cookies)`
-		// where the helper ranges over the corresponding parameter
-		ast.Inspect(f.Decl.Body, func(nd ast.Node) bool {
-			as, ok := nd.(*ast.AssignStmt)
-			if !ok || len(as.Lhs) != 1 || len(as.Rhs) != 1 {
-				return true
-			}
-			id, ok := as.Lhs[0].(*ast.Ident)
-			call, isCall := an.Unparen(as.Rhs[0]).(*ast.CallExpr)
-			if !ok || !isCall || !strings.Contains(strings.ToLower(id.Name), "mustvalidate") {
-				return true
-			}
-			h := c.FuncOfObj(an.Callee(info, call))
-			if h == nil {
-				return true
-			}
-			var params []types.Object
-			for _, fl := range h.Decl.Type.Params.List {
-				for _, nm := range fl.Names {
-					params = append(params, h.Pkg.TypesInfo.Defs[nm])
-				}
-			}
-			for i, a := range call.Args {
-				o := an.ObjOf(info, a)
-				if o == nil || i >= len(params) {
+		// a collection handed to a helper that computes the flag from it: `mustValidate = helper(headers, cookies)`,
+		// `mustValidate = mustValidate || helper(cookies)`, `if helper(cookies) { mustValidate = true }` — where
+		// the helper ranges over the corresponding parameter
+		isFlag := func(e ast.Expr) bool {
+			id, ok := an.Unparen(e).(*ast.Ident)
+			return ok && strings.Contains(strings.ToLower(id.Name), "mustvalidate")
+		}
+		consultCalls := func(e ast.Node) {
+			for _, call := range an.AllCallsIn(e) {
+				h := c.FuncOfObj(an.Callee(info, call))
+				if h == nil {
 					continue
 				}
-				ast.Inspect(h.Decl.Body, func(x ast.Node) bool {
-					if rs, ok := x.(*ast.RangeStmt); ok && an.ObjOf(h.Pkg.TypesInfo, rs.X) == params[i] {
-						consulted[o] = true
-						setsFlag = true
+				var params []types.Object
+				for _, fl := range h.Decl.Type.Params.List {
+					for _, nm := range fl.Names {
+						params = append(params, h.Pkg.TypesInfo.Defs[nm])
+					}
+				}
+				for i, a := range call.Args {
+					o := an.ObjOf(info, a)
+					if o == nil || i >= len(params) {
+						continue
+					}
+					ast.Inspect(h.Decl.Body, func(x ast.Node) bool {
+						if rs, ok := x.(*ast.RangeStmt); ok && an.ObjOf(h.Pkg.TypesInfo, rs.X) == params[i] {
+							consulted[o] = true
+							setsFlag = true
+						}
+						return true
+					})
+				}
+			}
+		}
+		ast.Inspect(f.Decl.Body, func(nd ast.Node) bool {
+			switch x := nd.(type) {
+			case *ast.AssignStmt:
+				if len(x.Lhs) == 1 && len(x.Rhs) == 1 && isFlag(x.Lhs[0]) {
+					consultCalls(x.Rhs[0])
+				}
+			case *ast.IfStmt:
+				sets := false
+				ast.Inspect(x.Body, func(y ast.Node) bool {
+					if as, ok := y.(*ast.AssignStmt); ok && len(as.Lhs) == 1 && isFlag(as.Lhs[0]) {
+						sets = true
 					}
 					return true
 				})
+				if sets {
+					consultCalls(x.Cond)
+				}
 			}
 			return true
 		})
@@ -1194,4 +1257,12 @@ func aliasFlattening(c *an.Ctx, rule string) {
 		probs = append(probs, fmt.Sprintf("only %d alias paths found (expected the visited × validation combinations)", aliasPaths))
 	}
 	report(c, rule, f.Name+"#alias", f, probs, fmt.Sprintf("%d alias paths: the aliased type, validation (into the attribute) and default are taken on every one, visited or not", aliasPaths))
+}
+
+// factsOf returns the atomic conditions whose outcome is fixed at node n of f (dominating branches, conjuncts,
+// short-circuit context).
+func factsOf(f *an.Func, n ast.Node) []an.CondFact {
+	g := an.NewCFG(f.Pkg.TypesInfo, f.Decl.Body)
+	facts, _ := g.FactsFor(n)
+	return facts
 }
